@@ -383,7 +383,7 @@ class _Parser(object):
                 return None
             if number is None:
                 return None
-            if not isinstance(number, numbers.Number):
+            if not isinstance(number, numbers.Number) or isinstance(number, bool):
                 raise OperationFailure(
                     "Parameter to %s must evaluate to a number, got '%s'" %
                     (operator, type(number)))
@@ -416,6 +416,8 @@ class _Parser(object):
             number_0, number_1 = self.parse_many(values)
             if number_0 is None or number_1 is None:
                 return None
+            if isinstance(number_0, bool) or isinstance(number_1, bool):
+                raise OperationFailure('%s only supports numeric types, not bool' % operator)
 
             if operator == '$divide':
                 return number_0 / number_1
@@ -459,6 +461,9 @@ class _Parser(object):
                     raise OperationFailure('only one date allowed in an $add expression')
                 date = value
                 continue
+            if isinstance(value, bool):
+                raise OperationFailure('%s only supports numeric%s types, not bool' % (
+                    operator, ' or date' if operator == '$add' else ''))
             assert isinstance(value, numbers.Number), '%s only uses numbers' % operator
         if date is not None:
             # A date plus numbers: the date moved by that many milliseconds.
@@ -490,6 +495,9 @@ class _Parser(object):
             index = self._parse_or_nothing(value)
             if array is None or array is NOTHING or index is None or index is NOTHING:
                 return None
+            if isinstance(index, bool):
+                raise OperationFailure(
+                    "$arrayElemAt's second argument must be a numeric value, but is bool")
             try:
                 return array[index]
             except IndexError as error:
@@ -872,7 +880,7 @@ class _Parser(object):
                     'First argument to $slice must be an array, but is of type: {}'
                     .format(type(array_value)))
             for num, v in zip(('Second', 'Third'), value[1:]):
-                if not isinstance(v, int):
+                if not isinstance(v, int) or isinstance(v, bool):
                     raise OperationFailure(
                         '{} argument to $slice must be numeric, but is of type: {}'
                         .format(num, type(v)))
